@@ -22,7 +22,37 @@ def main():
     mod = importlib.import_module(f"harness.{a.pid.lower()}")
     if a.replay and hasattr(mod, "replay"):
         return mod.replay(a.replay)
-    return mod.run(a.tier, a.seed)
+    try:
+        return mod.run(a.tier, a.seed)
+    except (SystemExit, KeyboardInterrupt):
+        raise
+    except BaseException as e:  # noqa
+        # The check could not complete: an exception escaped from the code under test (through a call the harness did
+        # not expect to fail) or from the harness itself.  Either way the property is not shown to hold on this tree:
+        # reported as the brief prescribes for a broken correspondence, naming what stopped.
+        import json
+        import time
+        import traceback
+        tb = traceback.format_exc()
+        here = os.path.dirname(os.path.abspath(__file__))
+        rdir = os.path.join(here, "evidence", "replays")
+        os.makedirs(rdir, exist_ok=True)
+        path = os.path.join(rdir, f"{a.pid}_{a.tier}_{a.seed}_stopped.json")
+        in_repo = [l.strip() for l in tb.splitlines() if "bardic" in l and "/harness/" not in l][-3:]
+        with open(path, "w") as f:
+            json.dump({"property": a.pid, "kind": "check-stopped-by-exception", "exception": repr(e)[:500],
+                       "obligation_not_established": f"correspondence run of {a.pid} (harness/{a.pid.lower()}.py) did not complete",
+                       "innermost_frames_in_the_code_under_test": in_repo, "traceback": tb[-6000:]}, f, indent=1)
+        ev = {"property_id": a.pid, "tier": a.tier, "seed": a.seed, "level": "other",
+              "coverage": {"evaluations": 0, "distinct_nontrivial": 0,
+                           "rule": "the check stopped with an exception before completing: nothing is claimed for this run"},
+              "assumptions": [], "wall_s": 0.0, "violations": 1, "known_findings_reproduced": [],
+              "violation_signatures": ["check-stopped-by-exception:" + type(e).__name__]}
+        with open(os.path.join(here, "evidence", f"{a.pid}.json"), "w") as f:
+            json.dump(ev, f, indent=1)
+        sys.stderr.write(tb)
+        print(f"VIOLATION property={a.pid} replay={path} no-failing-input-found")
+        return 1
 
 
 if __name__ == "__main__":
